@@ -124,14 +124,30 @@ pub struct Args {
     pub nshards: usize,
     pub out: PathBuf,
     pub extra: Vec<String>,
+    /// tier `miri`: workloads are `permille`/1000 of the quick size (the interpreter is ~10^3..10^4 times slower)
+    pub permille: usize,
+    /// tier `miri`: at most `budget` session runs per process, 1 of `every` fixed-corpus cases
+    pub budget: usize,
+    pub every: usize,
 }
 
 impl Args {
     pub fn thorough(&self) -> bool {
         self.tier == "thorough"
     }
+    /// the worker runs inside the Miri interpreter (tier `miri`): tiny workloads, no sub-processes
+    pub fn miri(&self) -> bool {
+        self.tier == "miri"
+    }
+    /// keeps 1 of `every` items of a fixed enumeration under Miri (all of them natively)
+    pub fn keep(&self, i: usize, every: usize) -> bool {
+        !self.miri() || (i.wrapping_add(self.seed as usize)) % every.max(1) == 0
+    }
     /// scale(quick, thorough)
     pub fn scale(&self, q: usize, t: usize) -> usize {
+        if self.miri() {
+            return std::cmp::max(1, q * self.permille / 1000);
+        }
         let base = if self.thorough() { t } else { q };
         // VERIF_SCALE (percent) lets the mutant runner shrink workloads
         match std::env::var("VERIF_SCALE").ok().and_then(|s| s.parse::<usize>().ok()) {
